@@ -139,9 +139,8 @@ class V1World:
             elif op["kind"] == "sell":
                 res = m.sell_glp(self.token(op["tok"], op.get("dec")), op["amount"])
             elif op["kind"] == "update":
-                before = m.reward
                 m.update()
-                res = m.reward - before
+                res = None
             else:
                 raise ValueError(op["kind"])
             out = "ok"
